@@ -88,11 +88,19 @@ CanonUpsert(DS, T, S) ==
                           SNode(DS, SPath(p)).cases[i] = SNode(DS, SPath(s)).cases[i] }
     IN [ core EXCEPT !.leaf = Override([ p \in take |-> opt[p] ], core.leaf) ]
 
+\* a list node without entries holds no data: whether a store still shows it (an empty slice left
+\* behind when the last entry was deleted, or when its case was switched away) is store specific
+\* and not compared
+NormEmpty(T) ==
+    LET gone == { l \in DOMAIN T.ord : T.ord[l] = << >> } IN
+    [ leaf |-> T.leaf, cont |-> T.cont \ gone, ord |-> [ l \in DOMAIN T.ord \ gone |-> T.ord[l] ] ]
+
 \* outcome predicate for a successful merge
 \* `uno' is the set of list paths whose order is not observable (map-backed lists, or the
 \* source presents its entries in no defined order)
-MergedOK(DS, uno, T, S, post) ==
-    LET core == MergeCore(DS, T, S)
+MergedOK(DS, uno, T, S, post0) ==
+    LET core == NormEmpty(MergeCore(DS, T, S))
+        post == NormEmpty(post0)
         opt == OptDefaults(DS, T, S)
     IN /\ post.cont = core.cont
        /\ \A p \in DOMAIN core.leaf : p \in DOMAIN post.leaf /\ post.leaf[p] = core.leaf[p]
@@ -147,8 +155,8 @@ EditCheck(DS, uno, T, op, res, post) ==
             (IF FailedOK(DS, T, op.at, post) THEN "ok" ELSE "failed-edit-damaged-target")
        ELSE IF ~res.ok THEN "valid-edit-rejected"
        ELSE IF MergedOK(DS, uno, T, S, post) THEN "ok"
-       ELSE IF post.cont # MergeCore(DS, T, S).cont THEN
-            (IF \E p \in MergeCore(DS, T, S).cont : p \notin post.cont THEN "merge-lost-node"
+       ELSE IF NormEmpty(post).cont # NormEmpty(MergeCore(DS, T, S)).cont THEN
+            (IF \E p \in NormEmpty(MergeCore(DS, T, S)).cont : p \notin post.cont THEN "merge-lost-node"
              ELSE "merge-extra-node")
        ELSE IF \E p \in DOMAIN MergeCore(DS, T, S).leaf : p \notin DOMAIN post.leaf THEN
             (IF \E p \in DOMAIN ReqDefaults(DS, T, S) : p \notin DOMAIN post.leaf
@@ -158,7 +166,7 @@ EditCheck(DS, uno, T, op, res, post) ==
        ELSE IF \E p \in DOMAIN post.leaf \ DOMAIN MergeCore(DS, T, S).leaf : TRUE THEN
             (IF \E p \in Switched(DS, T, S) : p \in Paths(post) THEN "other-case-not-cleared"
              ELSE "merge-extra-leaf")
-       ELSE IF ~OneCase(DS, post) THEN "two-cases-hold-data"
+       ELSE IF ~OneCase(DS, NormEmpty(post)) THEN "two-cases-hold-data"
        ELSE "merge-wrong-order"
 
 -----------------------------------------------------------------------------
